@@ -211,6 +211,20 @@ def check_case(rec, case):
     o = call(ca.cfg_to_chomsky, G())
     if not o.ok:
         report_failure(rec, o, 'cfg_to_chomsky', grammar=cf.show(RG))
+    if len(RG[2]) >= 2 and case['cls'].startswith('random'):
+        # the same grammar OBJECT converted, changed in place (a rule dropped / the start variable moved), converted again
+        G0 = G()
+        for round_ in (0, 1):
+            o = call(ca.cfg_to_chomsky, G0)
+            if not o.ok:
+                report_failure(rec, o, 'cfg_to_chomsky', grammar=cf.show(adapt.cfg_ref(G0)), after_in_place_change=bool(round_))
+            for name in ('cfg_remove_epsilon_rules', 'cfg_eliminate_unit_rules'):
+                o = call(getattr(ca, name), G0)
+                if not o.ok:
+                    report_failure(rec, o, name, grammar=cf.show(adapt.cfg_ref(G0)), after_in_place_change=bool(round_))
+            if round_ == 0 and not common.mutate_in_place(G0, repr(RG)):
+                break
+            rec.counters['requery_after_in_place_change'] += 1 - round_
     hint = case.get('hint', 'S')
     for (name, args) in (('cfg_add_new_start_variable', (hint,)), ('cfg_remove_epsilon_rules', ()), ('cfg_eliminate_unit_rules', ()),
                          ('cfg_make_rules_of_length_two', ()), ('cfg_eliminate_terminals', ())):
